@@ -230,6 +230,27 @@ def validate_trace(module, cfg, name, trace_file, timeout=1800, heap="8g", env_e
     return res
 
 
+def run_apalache(module_path, args, name, timeout=900):
+    """apalache-mc check on a module (absolute path). Returns (ok, violated, log): ok = outcome NoError,
+    violated = an invariant violation was reported."""
+    od = os.path.join(OUT, "apalache", name)
+    shutil.rmtree(od, ignore_errors=True)
+    os.makedirs(od, exist_ok=True)
+    t = time.time()
+    p = subprocess.run(["timeout", str(timeout), "apalache-mc", "check", "--out-dir=" + od] + args + [module_path],
+                       cwd=os.path.dirname(module_path), env=env_offline(), stdout=subprocess.PIPE, stderr=subprocess.STDOUT, text=True)
+    logf = os.path.join(od, "stdout.log")
+    open(logf, "w").write(p.stdout)
+    ok = "The outcome is: NoError" in p.stdout
+    violated = "invariant" in p.stdout and "violated" in p.stdout
+    if p.returncode == 124:
+        raise ToolError("apalache timed out on %s (%s)" % (module_path, logf))
+    if not ok and not violated:
+        raise ToolError("apalache failed on %s: %s (%s)" % (module_path, p.stdout[-400:], logf))
+    log("apalache %s %s: %s, %.1fs" % (name, " ".join(args), "NoError" if ok else "invariant violated", time.time() - t))
+    return ok, violated, logf
+
+
 def require_clean(res, what):
     if res.errors:
         raise ToolError("%s: TLC reported %s (log %s)" % (what, res.errors[:3], res.log))
